@@ -344,6 +344,11 @@ def main():
     if not counts:
         raise common.MachineryError('probe run wrote no output file')
     nwrites = counts[-1]
+    # how long a complete run takes on this machine right now: "did not exit"
+    # is judged against a generous multiple of it, never against a constant
+    # (a loaded machine must not look like a hang)
+    limit = int(180 + 15 * probe.wall)
+    rep.cov['probe_run_wall_s'] = round(probe.wall, 1)
     rep.cov['low_level_writes_in_probe_run'] = nwrites
     rep.cov['rewrites_in_probe_run'] = len(counts)
     points = list(range(1, nwrites + 1))
@@ -359,7 +364,7 @@ def main():
                                             'ddmin')[n % 3], '-j',
                              str((1, 2)[n % 2])],
                             env_extra={'VERIF_FAULT': f'outwrite:{n}',
-                                       'VERIF_RUN_ID': rid}, timeout=120)
+                                       'VERIF_RUN_ID': rid}, timeout=limit)
         time.sleep(0.3)
         left = survivors(rid)
         if left:
@@ -403,7 +408,7 @@ def main():
         rr = runs.run_ddsmt(wd, INPUT, dict(SPEC, delay_ms=20),
                             ['--strategy', 'hybrid', '-j', '2'],
                             env_extra={'VERIF_RUN_ID': rid}, popen_hook=hook,
-                            timeout=120)
+                            timeout=limit)
         if any(e['ev'] == 'write' for e in rr.events):
             rep.nontrivial(f'signal:{k}')
         post_conditions(rep, rr, 'SIGKILL' if kill else 'SIGINT', 'signal',
